@@ -158,9 +158,11 @@ class TimeDomainExpression(TimeDomain, Expr):
             self.expr, self.var, fsym, evaluate=evaluate)
         result = self.change(result, domain='fourier',
                              units_scale=uu.s, **assumptions)
+        units = result.units
         result = result(var)
         result = result.expand(diracdelta=True, wrt=var)
         result = result.simplify()
+        result.units = units
         return result
 
     def fourier(self, var=None, evaluate=True, **assumptions):
